@@ -9,13 +9,17 @@ META = dict(
           "TranslatePath, ScalePath, TrimCollinear, the Minkowski quad construction) commute with erasing z; a faithful "
           "model of ClipperBase::SetZ passes to the callback the z of the first coinciding edge end in the code's "
           "priority order (the first edge's bot/top then the second's, the subject edge first when the path types differ) "
-          "else DefaultZ, and leaves the point alone without a callback.  The SetZ, ClipperD::ZCB and kernel models are "
+          "else DefaultZ, and leaves the point alone without a callback; a model of the ring surgery of ClipperBase::DoSplitOp "
+          "(geometric decisions as parameters) hands the callback the local point once, before it is copied into the kept and "
+          "the split-off ring.  The SetZ, DoSplitOp, ClipperD::ZCB and kernel models are "
           "tied to the code by exact comparison (real SetZ/ZCB called through private access on synthetic edges).  "
           "Geometry equality of the two build configurations is validated: the harness is built with and without USINGZ "
           "and run on identical boolean (Clipper64, ClipperD, open paths), offsetting (all join/end types) and "
           "rectangle-clipping inputs with random Z labels, callback absent / tagging / writing arbitrary values: x,y "
           "results must be bit-identical.  A Z-accounting monitor checks every solution vertex of general-position "
-          "inputs against the input labels and the callback log."),
+          "inputs against the input labels and the callback log.  DoSplitOp is reached only by inputs that are not in general "
+          "position (micro self-intersections left by rounding); a stream of such small-coordinate slivers is run through both "
+          "builds (x,y judged) and its Z accounting is recorded, not judged."),
     note=("Trusted: Coq kernel; extraction; C++ harness with private access; generators.  Not proved: geometry equality "
           "for the unmodelled engine and completeness of SetZ call sites (both validated by the two-build comparison and "
           "the accounting monitor)."),
@@ -175,6 +179,11 @@ def monitor(ctx, c, cb, dz, line, zline, num=int, scale=1):
     for cl in calls:
         e1 = edges.get((cl['e'][0][0], cl['e'][0][1], cl['e'][1][0], cl['e'][1][1]))
         e2 = edges.get((cl['e'][2][0], cl['e'][2][1], cl['e'][3][0], cl['e'][3][1]))
+        if any((q[0], q[1]) not in loc for q in cl['e']):
+            # SetZ passes bot/top of Active edges, which are always input vertices; a callback that receives a point
+            # that is not an input vertex comes from DoSplitOp (which passes four solution points) -- an undercount:
+            # a DoSplitOp call whose four points all happen to be input vertices is not recognised
+            ctx.count('callbacks_from_DoSplitOp')
         if e1 is None or e2 is None:
             # DoSplitOp passes solution points; for ClipperD a wrong proxy scale ends up here as well
             if num is float and not all(float(co * scale).is_integer() for p in cl['e'] for co in p[:2]):
@@ -193,6 +202,92 @@ def monitor(ctx, c, cb, dz, line, zline, num=int, scale=1):
             bad = 'new vertex passed with z=%d, DefaultZ is %d' % (cl['zin'], dz)
         if bad:
             ctx.violation('z.callback-args', 'callback arguments: %s: edges %s point %s' % (bad, cl['e'], cl['pt']), replay=rep)
+
+
+class Recorder:
+    """stands in for ctx when the Z monitor runs on an input OUTSIDE the quantifier of the Z clause (not in general
+    position): everything is counted under nongp.*, nothing is judged"""
+
+    def __init__(self, ctx):
+        self.ctx, self.bad, self.split = ctx, 0, 0
+
+    def count(self, key, n=1):
+        if key == 'callbacks_from_DoSplitOp':
+            self.split += n
+        self.ctx.count('nongp.' + key, n)
+
+    def violation(self, key, what, replay=None, nofail=False):
+        self.bad += 1
+        self.ctx.count('nongp.%s (recorded, not judged)' % key)
+        if len(self.ctx.cov.get('nongp_unaccounted_samples', [])) < 3:
+            self.ctx.sample(dict(key=key, what=what[:300], line=(replay or {}).get('line', '')[:400]), key='nongp_unaccounted_samples')
+        return False
+
+
+def gen_slivers(ctx, n):
+    """small-coordinate polygons whose roundings leave micro self-intersections in output rings (the inputs that reach
+    ClipperBase::DoSplitOp): random 5..8-gons in boxes of 30..1000 units and zigzags of long nearly parallel edges"""
+    rng = ctx.rng.fork(15)
+    out = []
+
+    def zigzag():
+        box = rng.choice([40, 100, 300, 1000])
+        m = rng.choice([4, 5, 5, 6, 7])
+        ang = (rng.range(-box, box), rng.range(-box, box))
+        L = max(1, abs(ang[0]), abs(ang[1]))
+        cx, cy = rng.range(0, box), rng.range(0, box)
+        p = []
+        for k in range(m):
+            sg = 1 if k % 2 == 0 else -1
+            t, w = rng.range(box // 3, box), rng.range(-8, 8)
+            p.append((cx + sg * ang[0] * t // L - ang[1] * w // L + rng.range(-2, 2), cy + sg * ang[1] * t // L + ang[0] * w // L + rng.range(-2, 2)))
+        return p
+    for i in range(n):
+        if i % 2:
+            S = [zigzag()]
+        else:
+            box = rng.choice([100, 100, 1000, 30, 300])
+            S = [[(rng.range(0, box), rng.range(0, box)) for _ in range(rng.choice([5, 5, 6, 8]))]]
+        C = []
+        if rng.chance(1, 4):
+            box = 100
+            C = [[(rng.range(0, box), rng.range(0, box)) for _ in range(rng.range(3, 5))]]
+        out.append(dict(S=label(rng, S), O=[], C=label(rng, C), cand=True, k=1, regime='sliver' if i % 2 else 'small-random'))
+    # the published trigger of the DoSplitOp repair: one 5-vertex sliver, Union/NonZero
+    out.append(dict(S=[[(27, 12, 1), (24, 11, 2), (75, 31, 3), (30, 18, 4), (95, 43, 5)]], O=[], C=[], cand=True, k=1, regime='sliver'))
+    return out
+
+
+def run_slivers(ctx, exes, cases):
+    """geometry clause judged on every input; Z clause judged on the inputs in general position, recorded on the others"""
+    rng = ctx.rng
+    lines, meta = [], []
+    for ci, c in enumerate(cases):
+        for j in range(2):
+            ct, fr, cb = (2, 1, 1) if j == 0 else (rng.choice(list(CT)), rng.below(4), rng.below(4))
+            lines.append('BOOL %d %d %d %d %d %d %d %s %s %s' % (ct, fr, rng.below(2), rng.below(2), cb, 0, rng.below(1 << 30), fmtz(c['S']), fmtz(c['O']), fmtz(c['C'])))
+            meta.append((ci, cb))
+    zo = both(ctx, exes, lines, 'bool64-slivers')
+    if not zo:
+        return
+    st = dict(inputs=len(cases), general_position=sum(1 for c in cases if c['gp']), runs=len(lines), runs_gp=0,
+              runs_reaching_DoSplitOp=0, runs_reaching_DoSplitOp_gp=0, nongp_runs_with_unaccounted_vertices=0)
+    for (ci, cb), l, z in zip(meta, lines, zo):
+        c = cases[ci]
+        if c['gp']:
+            st['runs_gp'] += 1
+            before = ctx.cov.get('callbacks_from_DoSplitOp', 0)
+            monitor(ctx, c, cb, 0, l, z)
+            if ctx.cov.get('callbacks_from_DoSplitOp', 0) > before:
+                st['runs_reaching_DoSplitOp'] += 1
+                st['runs_reaching_DoSplitOp_gp'] += 1
+                ctx.sample(dict(line=l[:400]), key='dosplitop_on_general_position_input')
+        else:
+            rec = Recorder(ctx)
+            monitor(rec, c, cb, 0, l, z)
+            st['runs_reaching_DoSplitOp'] += 1 if rec.split else 0
+            st['nongp_runs_with_unaccounted_vertices'] += 1 if rec.bad else 0
+    ctx.cov['sliver_stream'] = st
 
 
 # ----------------------------------------------------------------------------- runs
@@ -333,8 +428,30 @@ def run_kernels(ctx, exez, n):
         lines.append('TRIM %d %s' % (rng.below(2), fmtz([p])[2:]))
         pat = [kpt(rng, 4) for _ in range(rng.range(0, 4))]
         lines.append('MINK %d %d %s %s' % (rng.below(2), rng.below(2), fmtz([pat])[2:], fmtz([p])[2:]))
+    # DoSplitOp on synthetic output rings: bow ties (prev->split crosses next->nextnext), thin ones, random ones
+    split_from = len(lines)
+    for _ in range(n // 2):
+        g = rng.choice([4, 10, 50, 1000])
+        if rng.chance(2, 3):
+            a_, b_ = (rng.range(0, g), rng.range(0, g)), (rng.range(0, g), rng.range(0, g))
+            d = (rng.range(-g, g), rng.range(-g, g))
+            e = (rng.range(-2, 2), rng.range(-2, 2)) if rng.chance(1, 2) else (rng.range(-g, g), rng.range(-g, g))
+            quad = [a_, b_, (b_[0] + d[0], b_[1] + d[1]), (a_[0] + d[0] + e[0], a_[1] + d[1] + e[1])]
+            quad = [quad[0], quad[2], quad[1], quad[3]] if rng.chance(1, 2) else quad
+        else:
+            quad = [(rng.range(0, g), rng.range(0, g)) for _ in range(4)]
+        ring = quad + [(rng.range(-g, 2 * g), rng.range(-g, 2 * g)) for _ in range(rng.choice([0, 0, 1, 2, 3]))]
+        ring = [(x, y, rng.choice([0, 1, 2, 3, 50, -7])) for x, y in ring]
+        lines.append('SPLITZ %d %s' % (rng.below(3), fmtz([ring])[2:]))
     a, f1 = vf.par_lines(exez, lines)
-    b, f2 = vf.par_lines(oracle, lines)
+    # the model of DoSplitOp takes the geometric decisions (G ...) from the harness, which derives them with the library's own calls
+    mlines = list(lines)
+    if not f1:
+        for i in range(split_from, len(lines)):
+            if a[i].startswith('G ') and ' K' in a[i]:
+                geom, rest = a[i].split(' K', 1)
+                mlines[i], a[i] = lines[i] + ' ' + geom, 'K' + rest
+    b, f2 = vf.par_lines(oracle, mlines)
     if f2:
         raise vf.Infra('zerase oracle failed: %s' % (f2[0][2] or f2[0][3])[:500])
     if f1:
@@ -342,11 +459,13 @@ def run_kernels(ctx, exez, n):
         ctx.violation('z.crash.kernel', 'kernel command crashed (rc=%s): %s' % (rc, err[-300:]), replay=dict(kind='line', line=l or f1[0][0][0], builds=['z']))
         return []
     bad = []
-    for l, x, y in zip(lines, a, b):
+    for l, ml, x, y in zip(lines, mlines, a, b):
         ctx.count('kernel_evaluations')
         ctx.hist('kernel_commands', l.split()[0])
+        if l.startswith('SPLITZ') and ' N -1' not in x and ' K -1' not in x:
+            ctx.count('splitz_rings_split_in_two')
         if x != y:
-            bad.append(dict(kind='kernel', line=l, implementation=x, model=y))
+            bad.append(dict(kind='kernel', line=l, model_line=ml, builds=['z'], implementation=x, model=y))
     # ClipperD::ZCB proxy: descaled arguments against the scaled ones (scale is a power of two)
     lines = []
     for _ in range(n // 4):
@@ -409,6 +528,13 @@ def run(ctx):
         ctx.hist('bool_open_paths', len(c['O']))
     kbad = run_kernels(ctx, exes['z'], (3000 if ctx.quick else 60000) * mult)
     nontrivial = run_bool(ctx, exes, cases, asan)
+    sl = gen_slivers(ctx, (6000 if ctx.quick else 120000) * mult)
+    gp, fails = vf.par_lines(region, ['GENPOS ' + vf.fmt_paths(xy(c['S']) + xy(c['C'])) for c in sl])
+    if fails:
+        raise vf.Infra('oracle GENPOS failed: %s' % fails[0][2])
+    for c, g in zip(sl, gp):
+        c['gp'] = g.strip() == '1'
+    run_slivers(ctx, exes, sl)
     run_offset(ctx, exes, (120 if ctx.quick else 3000) * mult)
     run_rect(ctx, exes, (300 if ctx.quick else 6000) * mult)
     ctx.cov['distinct_nontrivial'] = nontrivial
@@ -420,12 +546,22 @@ def run(ctx):
                        'coordinate regimes, with open subjects, and on lattice inputs full of coincidences; ClipperOffset for every join type x random end type, '
                        'deltas of both signs; RectClip/RectClipLines (int64 and double); callback absent / fresh tags / arbitrary values / silent; '
                        'non-trivial = boolean runs in which the callback was called at least once; Z monitor on the inputs the extracted Coq predicate '
-                       'general_position accepts (open paths are submitted closed, which is stricter)')
+                       'general_position accepts (open paths are submitted closed, which is stricter); sliver stream: small-coordinate random polygons and zigzags of nearly '
+                       'parallel edges (the inputs that reach DoSplitOp), x,y equality judged on all, Z accounting judged on the general-position ones and '
+                       'recorded (nongp.*) on the others; SPLITZ: real DoSplitOp on synthetic rings against the extracted do_split_op_z')
+    ctx.cov['dosplitop_reachability'] = (
+        'ClipperBase::DoSplitOp (FixSelfIntersects) repairs a proper crossing of two output-ring segments separated by one segment. Ring segments '
+        'lie on input edges between rounded events (input vertices / crossings, displaced by < 1.5 units); in general position (base/GenPos.v: every '
+        'vertex and crossing >= 3 units from every edge it is not on) two such segments that do not share an end stay > 0 apart, so DoSplitOp is '
+        'unreachable and its Z handling is OUTSIDE the quantifier of the Z clause.  Measured: see sliver_stream (runs_reaching_DoSplitOp_gp must be 0; '
+        'a general-position run that does reach it is judged like any other).  DoSplitOp itself is tied to the model do_split_op_z (SPLITZ kernel command, '
+        'real member function on synthetic rings) so that a change of its Z flow is reported as a correspondence break.')
     ctx.assumptions += ['geometry equality of the two builds is validated on generated inputs, not proved (no model of the whole engine)',
                         'the Z monitor treats callbacks whose edge arguments are not input edges (DoSplitOp) as accounted when the vertex carries the assigned value',
                         'general position as decided by base/GenPos.v']
     if kbad:
-        k = kbad[0]
+        # prefer an example in which the ring is split in two and the callback assigns a value (the Z flow is visible)
+        k = min(kbad, key=lambda d: (not (d['line'].startswith('SPLITZ 1') and ' N 3' in d['model']), len(d['line'])))
         ctx.violation('kernel-mismatch:' + k['line'].split()[0], 'z build and Coq model ZErase.v differ on %d kernel inputs, e.g. %s -> implementation %s, model %s'
                       % (len(kbad), k['line'][:140], k['implementation'][:160], k['model'][:160]), replay=k, nofail=not ctx.violations)
     if broken and not ctx.violations:
@@ -443,7 +579,11 @@ def replay(ctx, path):
         outs[b] = vf.run_lines(exe, [r['line']]).stdout.strip()
         print('%-6s %s' % (b, outs[b]))
     if r.get('kind') == 'kernel':
-        m = vf.run_lines(vf.oracle_build('zerase'), [r['line']]).stdout.strip()
+        ml = r['line']
+        if ml.startswith('SPLITZ') and outs['z'].startswith('G ') and ' K' in outs['z']:
+            geom, rest = outs['z'].split(' K', 1)       # the model takes the geometric decisions from the harness
+            ml, outs['z'] = ml + ' ' + geom, 'K' + rest
+        m = vf.run_lines(vf.oracle_build('zerase'), [ml]).stdout.strip()
         print('model  %s' % m)
         if m != outs['z']:
             ctx.violation('kernel-mismatch:' + r['line'].split()[0], 'replayed kernel mismatch', replay=r, nofail=True)
